@@ -235,10 +235,18 @@ def rule_E2(ctx):
             for x in own_walk(f.node):
                 if isinstance(x, ast.Return) and x.lineno < gate:
                     res = (False, x)
+        # plain copies (`tmp = start`) are not uses; the copy is then watched like the original
+        copies = {}
+        for x in own_walk(f.node):
+            if isinstance(x, ast.Assign) and len(x.targets) == 1 and isinstance(x.targets[0], ast.Name) and isinstance(x.value, ast.Name) \
+                    and x.value.id in ('start', 'end'):
+                copies[x.targets[0].id] = x
         for x in own_walk(f.node) if res[0] else ():
-            if isinstance(x, ast.Name) and x.id in ('start', 'end') and isinstance(x.ctx, ast.Load):
+            if isinstance(x, ast.Name) and (x.id in ('start', 'end') or x.id in copies) and isinstance(x.ctx, ast.Load):
                 if vline is not None and x.lineno >= vline:
                     continue          # at or after validation (the names are rebound to validated values)
+                if any(x is c.value for c in copies.values()):
+                    continue
                 # before validation: only allowed as a plain argument forwarded to a callee that validates
                 fwd = False
                 for cs in fa.calls:
